@@ -597,4 +597,88 @@ Proof.
   - apply yields_many0. exact Hm.
 Qed.
 
+(** ** elements: induction on the tree *)
+Section ItemInd.
+Variable Pi : item -> Prop.
+Hypothesis H_elem : forall local prefix attrs children, Forall Pi children -> Pi (ItElement local prefix attrs children).
+Hypothesis H_other : forall i, is_element i = false -> Pi i.
+Lemma item_ind2 : forall i, Pi i.
+Proof.
+  fix IH 1. intros [local prefix attrs children|s|s|t num rd|s|p|e|d]; try (apply H_other; reflexivity).
+  apply H_elem. induction children as [|c l IHl]; constructor; [apply IH|exact IHl].
+Qed.
+End ItemInd.
+
+Lemma children_rt (l : list item) : forall b, children_wf item_wf b l ->
+  Forall (fun c => is_element c = true -> item_wf c -> element_rt c) l ->
+  Forall (fun c => is_text c = false -> child_rt c) l.
+Proof.
+  induction l as [|c l IH]; intros b Hwf Hall; constructor.
+  - inversion Hall as [|c' l' Hc _]; subst. intros Hnt.
+    assert (item_wf c) as Hic by (destruct c; cbn [children_wf] in Hwf; try tauto; discriminate).
+    destruct (is_element c) eqn:E.
+    + apply child_rt_element; [exact E|]. apply Hc; [reflexivity|exact Hic].
+    + apply child_rt_leaf. destruct c; try discriminate; cbn [item_wf] in Hic; try contradiction; exact Hic.
+  - inversion Hall; subst. destruct c; cbn [children_wf] in Hwf; try (eapply IH; [apply Hwf|assumption]).
+Qed.
+
+Lemma d_item_element local prefix attrs children :
+  d_item false (ItElement local prefix attrs children) =
+  60 :: d_qname (mk_qname prefix local) ++ d_attrs attrs
+     ++ match children with
+        | [] => [32;47;62]
+        | _ => 62 :: d_children children ++ 60 :: 47 :: d_qname (mk_qname prefix local) ++ [62]
+        end.
+Proof.
+  cbn [d_item]. rewrite d_name_qname. unfold d_attrs, d_children, s_empty_close, s_etag_open.
+  destruct children; cbn [app]; rewrite <- ?app_assoc; reflexivity.
+Qed.
+
+Theorem element_round_trip : forall i, is_element i = true -> item_wf i -> element_rt i.
+Proof.
+  apply (item_ind2 (fun i => is_element i = true -> item_wf i -> element_rt i)); [|intros i E H; congruence].
+  intros local prefix attrs children IHc _ [Hq [Ha [Hnd Hcw]]] r.
+  set (q := mk_qname prefix local) in *.
+  rewrite d_item_element. fold q. destruct children as [|c0 l0].
+  - (* <q attrs /> *)
+    exists (Element q (map un_attr attrs) None). split.
+    + apply yields_nt. rewrite body_element. apply yields_alt_l. apply yields_nt. rewrite body_empty_tag.
+      destruct (tag_open_rt q attrs (32 :: 47 :: 62 :: r) Hq Ha) as [ta [Hp He]]; [left; eexists; reflexivity|].
+      apply (yields_map' (VPair (VQName q) (VList (map VAttribute (map un_attr attrs))))); [apply al_element|].
+      repeat (progress (rewrite <- ?app_assoc; cbn [app])).
+      eapply yields_seqr; [tag|].
+      eapply yields_seql.
+      * exists (TPair (tree_qname q) ta). split; [exact Hp|]. cbn [eval_tree]. rewrite eval_tree_qname, He. reflexivity.
+      * eapply parses_seq; [apply (parses_chars0 G_xml ws [32] (47 :: 62 :: r)); reflexivity|tag].
+    + cbn [build_element]. unfold build_attrs. rewrite (build_attrs_un attrs Ha [] Hnd). cbn [ibind].
+      unfold q. rewrite qname_parts_mk. reflexivity.
+  - (* <q attrs>children</q> *)
+    set (l := c0 :: l0) in *.
+    assert (Forall (fun c => is_text c = false -> child_rt c) l) as Hrt by (eapply children_rt; eassumption).
+    destruct (content_rt l (d_qname q ++ 62 :: r) Hcw Hrt) as [h [cs [l1 [[tc [Hpc Hec]] [Hb Hl]]]]].
+    exists (Element q (map un_attr attrs) (Some (Some h, map cell_mk cs))). split.
+    + apply yields_nt. rewrite body_element.
+      repeat (progress (rewrite <- ?app_assoc; cbn [app])).
+      set (rest := d_children l ++ 60 :: 47 :: d_qname q ++ 62 :: r).
+      destruct (tag_open_rt q attrs (62 :: rest) Hq Ha) as [ta [Hp He]]; [right; eexists; reflexivity|].
+      apply yields_alt_r.
+      * apply fails_nt. rewrite body_empty_tag. apply fails_map. eapply fails_seqr_r; [tag|].
+        eapply fails_seql_r; [exact Hp|]. eapply fails_seq_r; [apply parses_chars0_nil; reflexivity|].
+        apply fails_tag. reflexivity.
+      * set (ts := TMap L_model_Element_from (TPair (tree_qname q) ta)).
+        exists (TMap L_closure_f7047233 (TPair ts (TPair tc (tree_qname q)))). split.
+        -- apply parses_map. apply parses_verify; [|cbn; apply tree_eqb_qname].
+           eapply parses_seq.
+           ++ apply parses_nt. rewrite body_stag. apply parses_map. eapply parses_seqr; [tag|].
+              eapply parses_seql; [exact Hp|].
+              eapply parses_seq; [apply parses_chars0_nil; reflexivity|tag].
+           ++ eapply parses_seq; [exact Hpc|].
+              apply parses_nt. rewrite body_etag. eapply parses_seqr; [tag|].
+              eapply parses_seql; [apply parses_qname; [exact Hq|reflexivity]|].
+              eapply parses_seq; [apply parses_chars0_nil; reflexivity|tag].
+        -- subst ts. cbn [eval_tree]. rewrite Hec, He, !eval_tree_qname. rewrite al_element. apply al_set_content.
+    + cbn [build_element]. unfold build_attrs. rewrite (build_attrs_un attrs Ha [] Hnd). cbn [ibind].
+      rewrite Hb. cbn [ibind]. unfold q. rewrite qname_parts_mk. cbn [fst snd]. rewrite Hl. reflexivity.
+Qed.
+
 End Elem.
